@@ -137,7 +137,9 @@ def run_property(spec, tier, seed, extract=None):
         gen = es.gen(random.Random(rng.getrandbits(64)), n, tier)
         hs = corpus + gen
         ti = time.time()
-        impl = core.run_side(core.impl_cmd(es.name), hs, timeout=es.timeout)
+        # a quick run of an engine takes well under a minute; an implementation that hangs is cut off after five
+        to = es.timeout if tier == "thorough" else min(es.timeout, 300)
+        impl = core.run_side(core.impl_cmd(es.name), hs, timeout=to)
         if es.canon:
             impl = [es.canon(x) for x in impl]
         tm = time.time()
